@@ -77,6 +77,22 @@ def observed(tr):
     return tuple(out)
 
 
+def _boundary_budgets():
+    """budgets whose h_max = floor(n/H_n) is divisible by many depths h (floor(h_max/h) sits exactly on an integer)"""
+    from fractions import Fraction
+    want = {49: None, 60: None, 98: None, 120: None}
+    H = Fraction(0)
+    for n in range(1, 1300):
+        H += Fraction(1, n)
+        hm = int(Fraction(n) / H)
+        if hm in want and want[hm] is None and n >= 10:
+            want[hm] = n + 2
+    return [v for v in want.values() if v]
+
+
+BOUNDARY_N = _boundary_budgets()
+
+
 def random_cfgs(tier, base_id, neg=False):
     rnd = random.Random(C.seed() + 83 + (3 if neg else 0))
     cfgs = []
@@ -86,6 +102,8 @@ def random_cfgs(tier, base_id, neg=False):
         D = rnd.choice([1, 1, 2]) if kind != "dbin" else rnd.choice([1, 2])
         box = rnd.choice([b for b in PC.BOXES if len(b) == D])
         n = rnd.choice([10, 30, 60, 100, 200]) if tier == "quick" else rnd.choice([10, 17, 40, 100, 250, 600, 1000])
+        if rep % 4 == 3:
+            n = rnd.choice(BOUNDARY_N if tier != "quick" else BOUNDARY_N[:3])
         i += 1
         cfgs.append({"id": i, "algo": "SequOOL", "kind": kind, "K": Kk, "D": D, "box": box, "n": n, "T": n, "prm": {}, "pattern": rnd.choice(["g01", "peak", "flat", "tied", "gneg", "const"]),
                      "shift": rnd.choice([0, 0, -1, -2]) if not neg else rnd.choice([-1, -2]), "seed": rnd.randrange(1 << 30), "queries": sorted(rnd.sample(range(2, n), 2)) if rep % 3 == 0 else []})
